@@ -150,6 +150,13 @@ def op_strategies(nparts, ngroups, profile):
         'freezeflip': st.tuples(idx, st.lists(idx, min_size=1, max_size=2))
         .map(lambda t: ['macro', [['freeze', t[0], t[1]],
                                   ['unfreeze', t[0]]]]),
+        # macro: a server is frozen with an instance named, removed before
+        # any cycle, and later another server is frozen without naming anyone
+        'stalemark': st.tuples(st.integers(0, 15).map(lambda v: 4 * v),
+                               st.lists(idx, min_size=1, max_size=2), idx)
+        .map(lambda t: ['macro', [['freeze', t[0], t[1]], ['rmsrv', t[0]],
+                                  ['cycle'], ['freeze', t[2], []],
+                                  ['cycle']]]),
         # macro: a server with instances is removed, one of the instances
         # that lost its server is blacklisted before the next cycle
         'orphanbl': st.tuples(idx, st.integers(0, 31).map(lambda v: 2 * v + 1))
@@ -175,7 +182,7 @@ def flatten(ops):
 DEFAULT_WEIGHTS = {
     'app': 10, 'clone': 2, 'rm': 2, 'prio': 1, 'move': 1, 'srv': 1, 'rmsrv': 1,
     'readd': 1, 'down': 2, 'up': 2, 'downseq': 0, 'freezeflip': 0,
-    'orphanbl': 0, 'freeze': 1, 'unfreeze': 1, 'bl': 1,
+    'orphanbl': 0, 'stalemark': 0, 'freeze': 1, 'unfreeze': 1, 'bl': 1,
     'renew': 1, 'idg': 1, 'rmidg': 1, 'strat': 1, 'adv': 2, 'adv_ret': 1,
     'tick': 1, 'cycle': 8,
 }
@@ -277,6 +284,10 @@ def e2_op_strategies(nparts, ngroups, profile):
     group = st.one_of(st.none(), st.none(),
                       st.integers(0, max(0, ngroups - 1))) \
         if ngroups else st.none()
+    ops_app_placeholder = st.tuples(
+        st.just('app'), st.sampled_from(PROIDS), st.integers(0, 2),
+        vec(0, 2), st.just(None), st.none(), st.none(), st.none(),
+        st.just([]), st.just(False), st.just(1), st.integers(0, 7)).map(list)
     ops = {
         'app': st.tuples(
             st.just('app'), st.sampled_from(PROIDS), st.integers(0, 2),
@@ -348,6 +359,17 @@ def e2_op_strategies(nparts, ngroups, profile):
         'freezeflip': st.tuples(idx, st.lists(idx, min_size=1, max_size=2))
         .map(lambda t: ['macro', [['state', t[0], 'frozen', t[1]],
                                   ['state', t[0], 'up', []]]]),
+        # macro: a cycle runs between an admin deleting a server and the
+        # master handling the event, with a fresh instance to place
+        'rmsrvrace': st.tuples(ops_app_placeholder, idx)
+        .map(lambda t: ['macro', [t[0], ['ev'], ['ev'], ['rmsrv', t[1]],
+                                  ['sched']]]),
+        'stalemark': st.tuples(idx, st.lists(idx, min_size=1, max_size=2),
+                               idx)
+        .map(lambda t: ['macro', [['state', t[0], 'frozen', t[1]],
+                                  ['rmsrv', t[0]], ['cycle'],
+                                  ['state', t[2], 'frozen', []],
+                                  ['cycle']]]),
     }
     if not ngroups:
         ops.pop('idg')
@@ -360,6 +382,7 @@ def e2_op_strategies(nparts, ngroups, profile):
 E2_WEIGHTS = {
     'app': 10, 'rm': 2, 'rmlast': 1, 'finish': 1, 'prio': 1, 'srv': 1, 'rmsrv': 1,
     'down': 2, 'up': 2, 'downseq': 0, 'downrestart': 0, 'freezeflip': 0,
+    'stalemark': 0, 'rmsrvrace': 0,
     'reboot': 1, 'resize': 1, 'repart': 1, 'reparent': 1,
     'state': 1, 'allocs': 1, 'idg': 1, 'rmidg': 1, 'bl': 1, 'blackout': 1,
     'cellev': 1, 'running': 1, 'adv': 2, 'adv_ret': 1, 'tickreboots': 1,
